@@ -42,7 +42,7 @@ pub fn property() -> Property {
       id: 0,
       name: "lease model vs DiscoveryDB",
       quick: 10_000,
-      thorough: 1_500_000,
+      thorough: 10_000_000,
       max_len: 300,
       max_threads: 0,
     }],
